@@ -79,6 +79,7 @@ type Engine struct {
 	violSeen   map[string]bool
 	asserts    int64
 	liftFns    map[string]bool
+	mergeFns   map[string]bool // functions inside which state merging is switched on (verifrt.MergeIn)
 	// mapOrderPolicy: order in which `range` visits a map (Go leaves it unspecified):
 	// 0 insertion order, 1 reversed, 2 rotated by one, 3 odd positions first
 	mapOrderPolicy int
@@ -100,7 +101,7 @@ type Violation struct {
 
 func NewEngine(prog *ssa.Program) *Engine {
 	return &Engine{prog: prog, stubs: map[string]Value{}, globals: map[*ssa.Global]int{}, feas: true, unwind: 64, maxDepth: 200,
-		mergeOn: true, liftFns: map[string]bool{}, violSeen: map[string]bool{}, funcsSeen: map[string]bool{}, covers: map[string]map[string]uint64{}, coverSeen: map[string]bool{}, notes: map[string]int64{}}
+		mergeOn: true, liftFns: map[string]bool{}, mergeFns: map[string]bool{}, violSeen: map[string]bool{}, funcsSeen: map[string]bool{}, covers: map[string]map[string]uint64{}, coverSeen: map[string]bool{}, notes: map[string]int64{}}
 }
 
 // concretizeFns: callees that need concrete strings; a symbolic choice among
@@ -162,7 +163,7 @@ func (e *Engine) callFunction(fn *ssa.Function, args []Value, env []Value, st *S
 	if e.initMode && fn != e.curInit && fn.Pkg != nil && fn == fn.Pkg.Func("init") {
 		return []Outcome{{st: st}}
 	}
-	if sv, ok := e.stubs[name]; ok {
+	if sv, ok := e.stubs[name]; ok && st.calls["unstub:"+name] == 0 {
 		fv := sv.(*FuncV)
 		return e.callFunction(fv.fn, args, fv.env, st, depth, site)
 	}
@@ -243,6 +244,15 @@ func (e *Engine) callFunction(fn *ssa.Function, args []Value, env []Value, st *S
 	first := &item{st: st, regs: regs, blk: fn.Blocks[0]}
 	f.work = append(f.work, first)
 	e.stack = append(e.stack, name)
+	if e.mergeFns[name] && !e.mergeOn {
+		// merging scoped to this call: the callee's paths re-join at its joins and at its return
+		e.mergeOn = true
+		e.runFrame(f)
+		e.stack = e.stack[:len(e.stack)-1]
+		outs := e.mergeOutcomes(f.outs)
+		e.mergeOn = false
+		return outs
+	}
 	e.runFrame(f)
 	e.stack = e.stack[:len(e.stack)-1]
 	return e.mergeOutcomes(f.outs)
